@@ -57,3 +57,10 @@ def run(repo, res, tier):
     # the entry points hand the caller's text to the parser as it is (no trimming, cutting or re-encoding on the way)
     from .. import entryrules as _er3
     _er3.rule_f1(repo, res, "__init__")
+    from .. import tablerules as _tb3
+    _tb3.rule_tb_char(repo, res)
+    # OBJECT blocks become object containers and GROUP blocks group containers also through the pvl.new loaders: the
+    # container classes they hand to the parser are the module / group / object classes of that family, each under its own keyword
+    if "new" in repo.modules:
+        from .. import hookrules as _hkv3
+        _hkv3.rule_v1(repo, res)
